@@ -44,6 +44,8 @@ mod traits;
 mod transformers;
 pub mod type_checker;
 mod utils;
+#[cfg(feature = "verif-hooks")]
+pub mod verif_hooks;
 
 use crate::model_transformer::TransformError;
 #[cfg(feature = "clarabel")]
